@@ -128,6 +128,8 @@ var controls = []control{
 	{"comments-merged-in-reverse-order", []string{"C13"}, false, "rewriter/rewrite.go", "return zs[i].Pos() < zs[j].Pos()", "return zs[i].Pos() > zs[j].Pos()", "RW.COMMENTS"},
 	{"trivial-switch-tagged-delay", []string{"C11"}, false, "rewriter/yield_rewrite.go", "\t\tchildren = r.combineIfNecessary(children) // for init containing yield\n\t\tchildren.push(switchStmt, kindTrival)", "\t\tchildren = r.combineIfNecessary(children) // for init containing yield\n\t\tchildren.push(switchStmt, kindDelay)", "RW.BLOCKSTATE"},
 	{"incdec-unknown-to-break-scan", []string{"C11"}, false, "rewriter/return.go", "*ast.IncDecStmt, *ast.AssignStmt, *ast.GoStmt, *ast.DeferStmt,\n\t\t*ast.RangeStmt /*range empty*/ :\n\t\t// no chance", "*ast.AssignStmt, *ast.GoStmt, *ast.DeferStmt,\n\t\t*ast.RangeStmt /*range empty*/ :\n\t\t// no chance", "RW.EXH"},
+	{"switch-break-rewrite-enters-loops", []string{"C01"}, false, "rewriter/yield_rewrite.go", "\t\tcase *ast.ForStmt, *ast.RangeStmt, *ast.SwitchStmt, *ast.TypeSwitchStmt,\n\t\t\t*ast.SelectStmt, *ast.FuncLit:\n\t\t\treturn false // a break in there refers to that stmt", "\t\tcase *ast.SwitchStmt, *ast.TypeSwitchStmt,\n\t\t\t*ast.SelectStmt, *ast.FuncLit:\n\t\t\treturn false // a break in there refers to that stmt", "RW.SCOPEAGREE"},
+	{"switch-breaks-not-rewritten", []string{"C01"}, false, "rewriter/yield_rewrite.go", "\tif !r.mustNoYield(body) {\n\t\tr.rewriteSwitchBreaks(body)\n\t}\n", "", "RW.SCOPEAGREE"},
 }
 
 func runControls(c *Ctx, spec propSpec, o opts) {
